@@ -95,17 +95,31 @@ def make_case(tier, seed, index):
         return {"kind": k, "seed": rnd.randrange(1 << 16), "garbage_eco": rnd.random() < 0.4, "start": rnd.choice(offs),
                 "lat": rnd.choice(lats), "ops": _ops_for(k, rnd, rnd.randint(2, 7)),
                 "comm_addr": rnd.choice([0, 0, 0x25, 0x7E]),
-                "refuse": [x for x in REFUSABLE[fam] if rnd.random() < 0.35]}
+                "refuse": [x for x in REFUSABLE[fam] if rnd.random() < 0.35],
+                "frag": rnd.choice([None, None, 2, 3, 5])}
     if index % 5 == 1:
         ka = kb = rnd.choice(["DT", "DT1", "DTtcp", "ET205", "ET205tcp"])
         if rnd.random() < 0.5:
             kb = {"DT": "DT1", "DT1": "DTtcp", "DTtcp": "DT", "ET205": "ET205tcp", "ET205tcp": "ET205"}[ka]
-    return {"a": side(ka, [0.001, 0.0005, 0.003]), "b": side(kb, [0.001, 0.0007, 0.002])}
+    case = {"a": side(ka, [0.001, 0.0005, 0.003]), "b": side(kb, [0.001, 0.0007, 0.002])}
+    if index % 7 == 3:
+        # two objects of the SAME family whose answers both arrive in pieces (class-level command objects are shared by
+        # all instances of a family)
+        k = rnd.choice(["ESv1", "ESv2", "ET205", "DT"])
+        case = {"a": side(k, [0.001, 0.0005]), "b": side(k if rnd.random() < 0.7 else {"ESv1": "ESv2", "ESv2": "ESv1"}.get(k, k),
+                                                        [0.001, 0.0007])}
+        case["a"]["frag"] = rnd.choice([2, 3, 5])
+        case["b"]["frag"] = rnd.choice([2, 3, 5])
+    return case
 
 
 def simplify(case):
     out = []
     for side in ("a", "b"):
+        if case[side].get("frag"):
+            c = {"a": dict(case["a"]), "b": dict(case["b"])}
+            c[side]["frag"] = None
+            out.append(c)
         if case[side]["start"]:
             c = {"a": dict(case["a"]), "b": dict(case["b"])}
             c[side]["start"] = 0.0
@@ -253,12 +267,21 @@ def execute(arg):
 
     exc_next = {}
 
+    frag = {hosts[s]: case[s].get("frag") for s in sides}
+    nsent = {}
+
     def client_send(trp, data):
         host = trp.remote[0]
+        nsent[host] = nsent.get(host, 0) + 1
+        d = lat.get(host, 0.001)
         if exc_next.pop(host, None):
-            world.net.default_fault = {"k": "exc", "code": 6, "d": lat.get(host, 0.001)}
+            world.net.default_fault = {"k": "exc", "code": 6, "d": d}
+        elif frag.get(host) and nsent[host] % 2 == 0:
+            # this peer's answers arrive in two pieces (every other one), far enough apart for the other object's
+            # traffic to fall in between
+            world.net.default_fault = {"k": "frag", "s": 9, "d1": d, "d2": d * frag[host]}
         else:
-            world.net.default_fault = {"k": "ok", "d": lat.get(host, 0.001)}
+            world.net.default_fault = {"k": "ok", "d": d}
         return orig_send(trp, data)
 
     world.net.client_send = client_send
